@@ -105,9 +105,12 @@ C12StepChecks(k, e, s, t, g) ==
                                     /\ Committed(t, x[1], x[2]) \prec LockedSum(GLocks(g, x[1], x[2]), now)}
       \* the implementation's recorded live lock-ups agree with the specification's ledger
       badLedger == {x \in pairs : LockedSum(Lockups(t, x[1], x[2]), now) # LockedSum(GLocks(g2, x[1], x[2]), now)}
-  IN { ChkK("C12", "C12.step.total_tracks_accounts", \E d \in ds : Inc(d) # Zero \/ Dec(d) # Zero, bad = {}, Bad(bad),
-            IF bad # {} /\ bad = kf1 THEN "C12-uncommit-adds-to-total"
-            ELSE IF bad # {} /\ bad = kf2 THEN "C12-edenb-burn-skips-total" ELSE ""),
+      \* one step can show both recorded findings (uncommitting Eden burns EdenB): they are judged per denom
+      bad1   == bad \ kf2
+      bad2   == bad \cap kf2
+  IN { ChkK("C12", "C12.step.total_tracks_accounts", \E d \in ds : Inc(d) # Zero \/ Dec(d) # Zero, bad1 = {}, Bad(bad1),
+            IF bad1 # {} /\ bad1 \subseteq kf1 THEN "C12-uncommit-adds-to-total" ELSE ""),
+       ChkK("C12", "C12.step.total_tracks_accounts", bad2 # {}, bad2 = {}, Bad(bad2), "C12-edenb-burn-skips-total"),
        Chk("C12", "C12.step.live_lockups_preserved", \E a \in CommitAccts(s) : \E d \in DOMAIN s.commit.acct[a].committed : Lockups(s, a, d) # <<>>,
            badLock = {}, Bad(badLock)),
        Chk("C12", "C12.step.locked_tokens_not_withdrawn_before_expiry", \E x \in pairs : Committed(t, x[1], x[2]) \prec Committed(s, x[1], x[2]),
